@@ -104,8 +104,8 @@ def histories(ctx):
     if ctx.tier == 'quick':
         scopes = [(QUICK_KINDS, [100, 100], 12, False, 4000)]
     else:
-        scopes = [(FULL_KINDS, [100, 100], 11, True, 120000), (FULL_KINDS, [100], 12, True, 120000),
-                  (QUICK_KINDS + [('junk', None, None)], [0, 0], 12, False, 60000)]
+        scopes = [(FULL_KINDS, [100, 100], 10, False, 40000), (FULL_KINDS, [100], 11, True, 60000),
+                  (QUICK_KINDS + [('junk', None, None)], [0, 0], 12, False, 30000)]
     capped = False
     for kinds, specs, depth, np, budget in scopes:
         cfg = {'plan': [1, 2, 3], 'timeout': 1000, 'specs': specs, 'pools': {1: 'ok', 2: 'ok', 3: 'ok'}, 'now': 0}
@@ -113,7 +113,7 @@ def histories(ctx):
             yield (cfg, ops, False, 'exhaustive')
         capped = capped or G.enumerate_orderings.capped
     ctx.exhaustive = not capped
-    n = 600 if ctx.tier == "quick" else 25000
+    n = 600 if ctx.tier == "quick" else 8000
     for _ in range(n):
         cfg = G.random_cfg(rng)
         punctual = rng.random() < 0.3
